@@ -1,33 +1,528 @@
+// Family c02: core/types transaction envelopes (MarshalBinary / UnmarshalBinary /
+// EncodeRLP / DecodeRLP / Hash / Size / WithoutBlobTxSidecar / JSON) vs
+// coq/EVM/TxEnvelope.v.
 package main
 
 import (
+	"bytes"
+	"errors"
 	"fmt"
+	"math/big"
+	"strings"
 
 	"github.com/ethereum/go-ethereum/common"
 	"github.com/ethereum/go-ethereum/core/types"
+	"github.com/ethereum/go-ethereum/crypto"
+	"github.com/ethereum/go-ethereum/crypto/kzg4844"
+	"github.com/ethereum/go-ethereum/rlp"
 	"github.com/holiman/uint256"
+	. "gethverif/harness/hxlib"
 )
 
-func main() {
-	inner := &types.BlobTx{
-		ChainID: uint256.NewInt(1), Nonce: 1, GasTipCap: uint256.NewInt(1), GasFeeCap: uint256.NewInt(1),
-		Gas: 21000, To: common.Address{1}, Value: uint256.NewInt(0), Data: make([]byte, 40),
-		BlobFeeCap: uint256.NewInt(1), V: uint256.NewInt(0), R: uint256.NewInt(1), S: uint256.NewInt(1),
-		Sidecar: &types.BlobTxSidecar{},
+const blobLen = 131072
+
+func shape(format string, a ...any) { panic("hxlib: " + fmt.Sprintf(format, a...)) }
+
+// ---------- observation helpers (must mirror coq/Run/C02.v) ----------
+
+func obBytes(b []byte) Sx {
+	if len(b) <= 300 {
+		return B(b)
 	}
-	tx := types.NewTx(inner)
-	b, err := tx.MarshalBinary()
-	fmt.Println("fresh: len", len(b), "Size", tx.Size(), err)
+	var s1, s2 uint64
+	for _, x := range b {
+		s1 += uint64(x)
+		s2 += s1
+	}
+	return L(U(uint64(len(b))), U(s1), U(s2))
+}
+
+func errClass(err error) int64 {
+	switch {
+	case err == nil:
+		return 0
+	case errors.Is(err, types.VerifErrShortTypedTx):
+		return 1
+	case errors.Is(err, types.ErrTxTypeNotSupported):
+		return 2
+	case strings.HasPrefix(err.Error(), "unsupported blob tx version"),
+		strings.HasPrefix(err.Error(), "unsupported sidecar version"):
+		return 4
+	default:
+		return 3
+	}
+}
+
+func obRes(b []byte, err error) Sx {
+	if err != nil {
+		return L(I(errClass(err)))
+	}
+	return L(I(0), obBytes(b))
+}
+
+func obTx(tx *types.Transaction, extra ...Sx) Sx {
+	m, merr := tx.MarshalBinary()
+	h := tx.Hash()
+	sz := tx.Size()
+	ver := I(-1)
+	if sc := tx.BlobTxSidecar(); sc != nil {
+		ver = U(uint64(sc.Version))
+	}
+	ws := tx.WithoutBlobTxSidecar()
+	wm, werr := ws.MarshalBinary()
+	items := []Sx{I(0), U(uint64(tx.Type())), obRes(m, merr), B(h[:]), U(sz), ver, U(ws.Size()), obRes(wm, werr)}
+	return L(append(items, extra...)...)
+}
+
+// ---------- direct property oracle on the implementation ----------
+
+// hashPreimage computes, from an ACCEPTED binary envelope alone, the bytes whose
+// Keccak-256 the transaction hash must be: the envelope itself, or for the blob
+// network wrapper  0x03 || first element of the outer list.
+func hashPreimage(b []byte) ([]byte, bool) {
+	if len(b) == 0 {
+		return nil, false
+	}
+	if b[0] > 0x7f || b[0] != types.BlobTxType {
+		return b, true
+	}
+	content, _, err := rlp.SplitList(b[1:])
+	if err != nil {
+		return nil, false
+	}
+	k, _, rest, err := rlp.Split(content)
+	if err != nil {
+		return nil, false
+	}
+	if k != rlp.List {
+		return b, true
+	}
+	first := content[:len(content)-len(rest)]
+	return append([]byte{types.BlobTxType}, first...), true
+}
+
+var secpN, _ = new(big.Int).SetString("fffffffffffffffffffffffffffffffebaaedce6af48a03bbfd25e8cd0364141", 16)
+
+// jsonEligible: the conditions under which UnmarshalJSON(MarshalJSON(tx)) is required to
+// succeed (evaluated independently of transaction_marshalling.go).
+func jsonEligible(tx *types.Transaction) bool {
+	fits := func(x *big.Int) bool { return x.Sign() >= 0 && x.BitLen() <= 256 }
+	v, r, s := tx.RawSignatureValues()
+	for _, x := range []*big.Int{tx.ChainId(), tx.GasPrice(), tx.GasTipCap(), tx.GasFeeCap(), tx.Value(), v, r, s} {
+		if !fits(x) {
+			return false
+		}
+	}
+	zero := v.Sign() == 0 && r.Sign() == 0 && s.Sign() == 0
+	sigRS := r.Sign() > 0 && s.Sign() > 0 && r.Cmp(secpN) < 0 && s.Cmp(secpN) < 0
+	switch tx.Type() {
+	case types.LegacyTxType:
+		if !zero {
+			if !sigRS || !v.IsUint64() {
+				return false
+			}
+			vv := v.Uint64()
+			if vv != 27 && vv != 28 && vv < 35 {
+				return false
+			}
+			// protected: v = 35 + 2*chainid + {0,1} always has a plain v in {0,1}
+		}
+	default:
+		if !zero && !(sigRS && v.IsUint64() && v.Uint64() <= 1) {
+			return false
+		}
+		if zero {
+			// yParity = 0 and v = 0 agree
+		}
+	}
+	if tx.Type() == types.BlobTxType && len(tx.BlobHashes()) == 0 {
+		return false
+	}
+	if tx.Type() == types.SetCodeTxType && len(tx.SetCodeAuthorizations()) == 0 {
+		return false
+	}
+	return true
+}
+
+// checkTx evaluates the property on one decoded transaction whose canonical envelope
+// (MarshalBinary form) must be [want].
+func checkTx(tx *types.Transaction, want []byte, where string, fails *[]string) {
+	fail := func(f string, a ...any) { *fails = append(*fails, where+": "+fmt.Sprintf(f, a...)) }
+	m, err := tx.MarshalBinary()
+	if err != nil {
+		fail("MarshalBinary of an accepted tx failed: %v", err)
+		return
+	}
+	if !bytes.Equal(m, want) {
+		fail("re-marshalled bytes differ from the accepted input (len %d vs %d)", len(m), len(want))
+	}
+	wantType := want[0]
+	if wantType > 0x7f {
+		wantType = 0
+	}
+	if tx.Type() != wantType {
+		fail("Type()=%d but the envelope says %d", tx.Type(), wantType)
+	}
+	if pre, ok := hashPreimage(want); !ok {
+		fail("cannot split the accepted envelope")
+	} else if h := tx.Hash(); h != common.BytesToHash(crypto.Keccak256(pre)) {
+		fail("Hash() is not keccak of the canonical sidecar-less envelope")
+	} else {
+		ws := tx.WithoutBlobTxSidecar()
+		wm, err := ws.MarshalBinary()
+		if err != nil || !bytes.Equal(wm, pre) {
+			fail("WithoutBlobTxSidecar().MarshalBinary() is not the hash preimage")
+		}
+		if ws.Hash() != h {
+			fail("hash changes when the sidecar is dropped")
+		}
+		if ws.Size() != uint64(len(wm)) {
+			fail("size-mismatch: WithoutBlobTxSidecar().Size()=%d, encoded length %d", ws.Size(), len(wm))
+		}
+	}
+	if tx.Size() != uint64(len(m)) {
+		fail("size-mismatch: Size()=%d, encoded length %d", tx.Size(), len(m))
+	}
+	// a second decode of the re-marshalled bytes gives the same transaction
 	var tx2 types.Transaction
-	err = tx2.UnmarshalBinary(b)
-	fmt.Println("decoded: err", err, "Size", tx2.Size(), "sidecar", tx2.BlobTxSidecar() != nil)
-	b2, _ := tx2.MarshalBinary()
-	fmt.Println("remarshal equal", string(b2) == string(b))
-	ws := tx2.WithoutBlobTxSidecar()
-	b3, _ := ws.MarshalBinary()
-	fmt.Println("without sidecar (from decoded): len", len(b3), "Size", ws.Size())
-	ws2 := tx.WithoutBlobTxSidecar()
-	b4, _ := ws2.MarshalBinary()
-	fmt.Println("without sidecar (from fresh): len", len(b4), "Size", ws2.Size())
-	fmt.Println(tx.Hash() == ws.Hash(), tx.Hash() == tx2.Hash())
+	if err := tx2.UnmarshalBinary(m); err != nil {
+		fail("re-marshalled bytes are rejected: %v", err)
+	} else if tx2.Hash() != tx.Hash() {
+		fail("re-decoded tx has another hash")
+	}
+	// JSON
+	js, err := tx.MarshalJSON()
+	if err != nil {
+		fail("MarshalJSON failed: %v", err)
+		return
+	}
+	var tx3 types.Transaction
+	if err := tx3.UnmarshalJSON(js); err != nil {
+		if jsonEligible(tx) {
+			fail("JSON round trip rejected an eligible tx: %v", err)
+		}
+	} else {
+		if tx3.Hash() != tx.Hash() || tx3.Type() != tx.Type() {
+			fail("JSON round trip changes the hash/type")
+		}
+		wm, _ := tx.WithoutBlobTxSidecar().MarshalBinary()
+		m3, _ := tx3.WithoutBlobTxSidecar().MarshalBinary()
+		if !bytes.Equal(wm, m3) {
+			fail("JSON round trip changes the canonical encoding")
+		}
+	}
+}
+
+// ---------- raw-bytes case ----------
+
+func decodeElem(b []byte) (*types.Transaction, int, error) {
+	r := bytes.NewReader(b)
+	s := rlp.NewStream(r, 0)
+	var tx types.Transaction
+	if err := s.Decode(&tx); err != nil {
+		return nil, 0, err
+	}
+	return &tx, r.Len(), nil
+}
+
+func obUnmarshal(b []byte, res *Result, fails *[]string, where string) {
+	var tx types.Transaction
+	err := tx.UnmarshalBinary(b)
+	res.Tags = append(res.Tags, fmt.Sprintf("%s.class%d", where, errClass(err)))
+	if err != nil {
+		res.Obs = L(append(AsList(res.Obs), L(I(errClass(err))))...)
+		return
+	}
+	res.Tags = append(res.Tags, fmt.Sprintf("%s.ok.type%d", where, tx.Type()))
+	if sc := tx.BlobTxSidecar(); sc != nil {
+		res.Tags = append(res.Tags, fmt.Sprintf("%s.sidecar.v%d.blobs%d", where, sc.Version, len(sc.Blobs)))
+	}
+	checkTx(&tx, b, where, fails)
+	var fresh types.Transaction
+	fresh.UnmarshalBinary(b) // observe on an untouched object (caches)
+	res.Obs = L(append(AsList(res.Obs), obTx(&fresh))...)
+}
+
+func obElem(b []byte, res *Result, fails *[]string, where string) {
+	tx, rest, err := decodeElem(b)
+	res.Tags = append(res.Tags, fmt.Sprintf("%s.class%d", where, errClass(err)))
+	if err != nil {
+		res.Obs = L(append(AsList(res.Obs), L(I(errClass(err))))...)
+		return
+	}
+	res.Tags = append(res.Tags, fmt.Sprintf("%s.ok.type%d", where, tx.Type()))
+	consumed := b[:len(b)-rest]
+	enc, eerr := rlp.EncodeToBytes(tx)
+	if eerr != nil || !bytes.Equal(enc, consumed) {
+		*fails = append(*fails, where+": EncodeRLP of the decoded element differs from the consumed input")
+	}
+	// the canonical envelope of an element: the list itself (legacy) or the string content
+	var want []byte
+	if k, c, _, serr := rlp.Split(consumed); serr != nil {
+		*fails = append(*fails, where+": cannot split the accepted element")
+	} else if k == rlp.List {
+		want = consumed
+	} else {
+		want = c
+	}
+	if want != nil {
+		checkTx(tx, want, where, fails)
+	}
+	fresh, _, _ := decodeElem(b)
+	e2, e2err := rlp.EncodeToBytes(fresh)
+	res.Obs = L(append(AsList(res.Obs), obTx(fresh, obRes(e2, e2err), U(uint64(rest))))...)
+}
+
+// ---------- structured case: Sx description -> Go transaction ----------
+
+func asBigNN(v Sx) *big.Int {
+	b := AsBig(v)
+	if b.Sign() < 0 {
+		shape("negative number")
+	}
+	return b
+}
+func asU64(v Sx) uint64 {
+	b := asBigNN(v)
+	if !b.IsUint64() {
+		shape("uint64 out of range")
+	}
+	return b.Uint64()
+}
+func asU256(v Sx) *uint256.Int {
+	x, over := uint256.FromBig(asBigNN(v))
+	if over {
+		shape("uint256 out of range")
+	}
+	return x
+}
+func asFixed(v Sx, n int) []byte {
+	b := AsBytes(v)
+	if len(b) != n {
+		shape("byte array of length %d, want %d", len(b), n)
+	}
+	return b
+}
+func asAddr(v Sx) common.Address { return common.BytesToAddress(asFixed(v, 20)) }
+func asAddrOpt(v Sx) *common.Address {
+	if i, ok := v.(SI); ok {
+		if i.V.Sign() >= 0 {
+			shape("nil address must be -1")
+		}
+		return nil
+	}
+	a := asAddr(v)
+	return &a
+}
+func asAccessList(v Sx) types.AccessList {
+	al := types.AccessList{}
+	for _, t := range AsList(v) {
+		tl := AsList(t)
+		if len(tl) != 2 {
+			shape("access tuple arity")
+		}
+		tup := types.AccessTuple{Address: asAddr(tl[0]), StorageKeys: []common.Hash{}}
+		for _, k := range AsList(tl[1]) {
+			tup.StorageKeys = append(tup.StorageKeys, common.BytesToHash(asFixed(k, 32)))
+		}
+		al = append(al, tup)
+	}
+	return al
+}
+func asHashes(v Sx) []common.Hash {
+	hs := []common.Hash{}
+	for _, k := range AsList(v) {
+		hs = append(hs, common.BytesToHash(asFixed(k, 32)))
+	}
+	return hs
+}
+func asAuthList(v Sx) []types.SetCodeAuthorization {
+	out := []types.SetCodeAuthorization{}
+	for _, a := range AsList(v) {
+		al := AsList(a)
+		if len(al) != 6 {
+			shape("authorization arity")
+		}
+		v8 := asU64(al[3])
+		if v8 > 255 {
+			shape("uint8 out of range")
+		}
+		out = append(out, types.SetCodeAuthorization{
+			ChainID: *asU256(al[0]), Address: asAddr(al[1]), Nonce: asU64(al[2]), V: uint8(v8),
+			R: *asU256(al[4]), S: *asU256(al[5]),
+		})
+	}
+	return out
+}
+
+func asSidecar(v Sx) *types.BlobTxSidecar {
+	l := AsList(v)
+	if len(l) == 0 {
+		return nil
+	}
+	if len(l) != 4 {
+		shape("sidecar arity")
+	}
+	ver := asU64(l[0])
+	if ver > 255 {
+		shape("sidecar version")
+	}
+	sc := &types.BlobTxSidecar{Version: byte(ver), Blobs: []kzg4844.Blob{}, Commitments: []kzg4844.Commitment{}, Proofs: []kzg4844.Proof{}}
+	for _, bd := range AsList(l[1]) {
+		bl := AsList(bd)
+		if len(bl) != 2 {
+			shape("blob descriptor arity")
+		}
+		fill := asU64(bl[0])
+		pre := AsBytes(bl[1])
+		if fill > 255 || len(pre) > blobLen {
+			shape("blob descriptor")
+		}
+		var blob kzg4844.Blob
+		for i := range blob {
+			blob[i] = byte(fill)
+		}
+		copy(blob[:], pre)
+		sc.Blobs = append(sc.Blobs, blob)
+	}
+	for _, c := range AsList(l[2]) {
+		var x kzg4844.Commitment
+		copy(x[:], asFixed(c, 48))
+		sc.Commitments = append(sc.Commitments, x)
+	}
+	for _, c := range AsList(l[3]) {
+		var x kzg4844.Proof
+		copy(x[:], asFixed(c, 48))
+		sc.Proofs = append(sc.Proofs, x)
+	}
+	return sc
+}
+
+func buildTx(ty int, fields Sx, sidecar Sx) *types.Transaction {
+	f := AsList(fields)
+	need := func(n int) {
+		if len(f) != n {
+			shape("type %d needs %d fields, got %d", ty, n, len(f))
+		}
+	}
+	if ty != 3 && len(AsList(sidecar)) != 0 {
+		shape("sidecar on a non-blob tx")
+	}
+	switch ty {
+	case 0:
+		need(9)
+		return types.NewTx(&types.LegacyTx{Nonce: asU64(f[0]), GasPrice: asBigNN(f[1]), Gas: asU64(f[2]), To: asAddrOpt(f[3]),
+			Value: asBigNN(f[4]), Data: AsBytes(f[5]), V: asBigNN(f[6]), R: asBigNN(f[7]), S: asBigNN(f[8])})
+	case 1:
+		need(11)
+		return types.NewTx(&types.AccessListTx{ChainID: asBigNN(f[0]), Nonce: asU64(f[1]), GasPrice: asBigNN(f[2]), Gas: asU64(f[3]),
+			To: asAddrOpt(f[4]), Value: asBigNN(f[5]), Data: AsBytes(f[6]), AccessList: asAccessList(f[7]),
+			V: asBigNN(f[8]), R: asBigNN(f[9]), S: asBigNN(f[10])})
+	case 2:
+		need(12)
+		return types.NewTx(&types.DynamicFeeTx{ChainID: asBigNN(f[0]), Nonce: asU64(f[1]), GasTipCap: asBigNN(f[2]), GasFeeCap: asBigNN(f[3]),
+			Gas: asU64(f[4]), To: asAddrOpt(f[5]), Value: asBigNN(f[6]), Data: AsBytes(f[7]), AccessList: asAccessList(f[8]),
+			V: asBigNN(f[9]), R: asBigNN(f[10]), S: asBigNN(f[11])})
+	case 3:
+		need(14)
+		return types.NewTx(&types.BlobTx{ChainID: asU256(f[0]), Nonce: asU64(f[1]), GasTipCap: asU256(f[2]), GasFeeCap: asU256(f[3]),
+			Gas: asU64(f[4]), To: asAddr(f[5]), Value: asU256(f[6]), Data: AsBytes(f[7]), AccessList: asAccessList(f[8]),
+			BlobFeeCap: asU256(f[9]), BlobHashes: asHashes(f[10]), Sidecar: asSidecar(sidecar),
+			V: asU256(f[11]), R: asU256(f[12]), S: asU256(f[13])})
+	case 4:
+		need(13)
+		return types.NewTx(&types.SetCodeTx{ChainID: asU256(f[0]), Nonce: asU64(f[1]), GasTipCap: asU256(f[2]), GasFeeCap: asU256(f[3]),
+			Gas: asU64(f[4]), To: asAddr(f[5]), Value: asU256(f[6]), Data: AsBytes(f[7]), AccessList: asAccessList(f[8]),
+			AuthList: asAuthList(f[9]), V: asU256(f[10]), R: asU256(f[11]), S: asU256(f[12])})
+	}
+	shape("unknown tx type %d", ty)
+	return nil
+}
+
+func run(c Sx) Result {
+	l := AsList(c)
+	if len(l) < 2 {
+		shape("case arity")
+	}
+	res := Result{Obs: L()}
+	var fails []string
+	switch AsInt(l[0]) {
+	case 0:
+		if len(l) != 2 {
+			shape("case arity")
+		}
+		b := AsBytes(l[1])
+		res.NonTrivial = len(b) >= 2
+		res.Tags = append(res.Tags, "raw")
+		obUnmarshal(b, &res, &fails, "bin")
+		obElem(b, &res, &fails, "elem")
+	case 1:
+		if len(l) != 4 {
+			shape("case arity")
+		}
+		ty := AsInt(l[1])
+		build := func() *types.Transaction { return buildTx(ty, l[2], l[3]) }
+		tx := build()
+		res.NonTrivial = true
+		res.Tags = append(res.Tags, fmt.Sprintf("tx.type%d", ty))
+		if sc := tx.BlobTxSidecar(); sc != nil {
+			res.Tags = append(res.Tags, fmt.Sprintf("tx.sidecar.v%d.blobs%d", sc.Version, len(sc.Blobs)))
+		}
+		if jsonEligible(tx) {
+			res.Tags = append(res.Tags, "tx.json-eligible")
+		}
+		m, merr := tx.MarshalBinary()
+		el, eerr := rlp.EncodeToBytes(tx)
+		h := tx.Hash()
+		items := []Sx{obRes(m, merr), obRes(el, eerr), B(h[:]), U(build().Size())}
+		res.Obs = L(items...)
+		if merr == nil {
+			// property on the locally built transaction: Size of a fresh object, hash, round trip
+			if sz := build().Size(); sz != uint64(len(m)) {
+				fails = append(fails, fmt.Sprintf("fresh: size-mismatch: Size()=%d, encoded length %d", sz, len(m)))
+			}
+			checkTx(build(), m, "fresh", &fails)
+			obUnmarshal(m, &res, &fails, "bin")
+			if len(AsList(res.Obs)) == 5 {
+				if first := AsList(AsList(res.Obs)[4]); len(first) == 1 {
+					fails = append(fails, "MarshalBinary output of a well-formed tx is rejected by UnmarshalBinary")
+				}
+			}
+		} else {
+			res.Tags = append(res.Tags, "tx.marshal-error")
+			res.Obs = L(append(AsList(res.Obs), L())...)
+		}
+		if eerr == nil {
+			in := append(append([]byte{}, el...), 1)
+			n0 := len(AsList(res.Obs))
+			obElem(in, &res, &fails, "elem")
+			if first := AsList(AsList(res.Obs)[n0]); len(first) == 1 {
+				fails = append(fails, "EncodeRLP output of a well-formed tx is rejected by DecodeRLP")
+			}
+		} else {
+			res.Obs = L(append(AsList(res.Obs), L())...)
+		}
+	default:
+		shape("unknown case kind")
+	}
+	if len(fails) > 0 {
+		res.Oracle = strings.Join(fails, " | ")
+		if len(res.Oracle) > 600 {
+			res.Oracle = res.Oracle[:600]
+		}
+	}
+	return res
+}
+
+func main() {
+	Main(Family{
+		ID: "c02",
+		Rule: "structured stream: random transactions of all five types (boundary values 0, 2^64-1, 2^256-1, >2^256 for big.Int fields, nil/non-nil To, " +
+			"empty/large access lists, 0-3 blob hashes, authorization lists, sidecars v0/v1/(2) with zero blobs, mismatched counts and a few real 131072-byte blobs, " +
+			"valid-signature 'JSON eligible' txs) run through NewTx: MarshalBinary, EncodeRLP, Hash, Size, then decoded again; adversarial stream: " +
+			"binary and list-element encodings mutated (type byte, truncation, trailing bytes, non-canonical integers/sizes, wrong arity, wrong kinds, " +
+			"field size off by one, wrapper/sidecar tampering, byte flips, random bytes). Non-trivial: every structured case; raw inputs of >= 2 bytes.",
+		Gen: gen,
+		Run: run,
+	})
 }
